@@ -111,10 +111,10 @@ def run(chk):
     pe = p.method(U + "register::PublicKey", "encode")
     if chk.require("R1 registration signature base", "R1|PublicKey::encode", pe, U, "PublicKey::encode not found"):
         chk.touched(pe)
-        v = flow.simplify_term(flow.Terms(p, pe).place(0, (), pe.return_blocks()[0], "t"))
-        sc = chain_segments(v)
-        ok = len(sc) == 3 and sc[0] == ("array", (("const", 4),)) and sc[1] == ("field", ("param", 1), "x") and sc[2] == ("field", ("param", 1), "y")
-        chk.ob("R1 registration signature base", "R1|PublicKey::encode|0x04-x-y", ok, where(pe), "PublicKey::encode = %s" % flow.term_str(v))
+        from . import layout
+        sc, _pv = layout.returned_segments(p, N, pe)
+        ok = sc == [("bytes", b"\x04"), ("field", ("param", 1), "x"), ("field", ("param", 1), "y")]
+        chk.ob("R1 registration signature base", "R1|PublicKey::encode|0x04-x-y", ok, where(pe), "PublicKey::encode = %s" % [flow.term_str(x)[:60] for x in sc])
 
     # ---------------- R2
     wr = names.calls_to(ur, "Passkey::wrap_u2f_registration_request")
@@ -232,7 +232,18 @@ def run(chk):
                 sc += [summary.replace(x, ("param", 1), s_[2][0]) for x in inner]
             else:
                 sc.append(s_)
-        sc = flow.merge_const_segments(sc)
+        sc = flow.merge_const_segments(flow.expand_byte_calls(p, N, sc))
+        if any(is_call(x, "PublicKey::to_bytes") or is_call(x, "PublicKey::encode") for x in sc) and pke is not None:
+            # the key's encoding built in a fixed buffer by a helper: its positional layout (R1|PublicKey::encode)
+            from . import layout as _lay
+            pk_segs, _v = _lay.returned_segments(p, N, pke)
+            out_ = []
+            for x in sc:
+                if (is_call(x, "PublicKey::to_bytes") or is_call(x, "PublicKey::encode")) and len(x[2]) == 1:
+                    out_ += [summary.replace(y, ("param", 1), x[2][0]) for y in pk_segs]
+                else:
+                    out_.append(x)
+            sc = flow.merge_const_segments(out_)
         PK = ("field", ("param", 1), "public_key")
         ok = len(sc) == 8 and sc[0] == ("bytes", b"\x05\x04") and sc[1] == ("field", PK, "x") and sc[2] == ("field", PK, "y") \
             and sc[3][0] == "array" and sc[3][1][0][0] == "cast" and sc[3][1][0][1] == "u8" and has(sc[3], lambda x: is_call(x, "Vec::len") and x[2][0] == ("field", ("param", 1), "key_handle")) \
@@ -267,9 +278,25 @@ def run(chk):
         chk.ob("R4 encodings", "R4|status-word-to-u16", len(o) == 1 and o[0].value[0] == "cast" and o[0].value[1] == "u16" and has(o[0].value, lambda x: x == ("param", 1)), where(fu[0]), "u16::from(sw) = %s" % [flow.term_str(x.value) for x in o])
 
     # ---------------- R5
+    def ok_record(view, T_):
+        """the record inside the Ok value a parser returns (selections on the way looked through: the Ok leaf)"""
+        ret = N.norm(T_.place(0, (), view.return_blocks()[0], "t"))
+        leaves = []
+
+        def walk(x, d=0):
+            if isinstance(x, tuple) and x and x[0] == "gamma" and d < 12:
+                for l_, b_ in x[2]:
+                    walk(b_, d + 1)
+            elif isinstance(x, tuple) and len(x) == 4 and x[0] == "agg" and x[2] == "Ok":
+                leaves.append(dict(x[3]).get("0"))
+        walk(ret)
+        return leaves[0] if len(leaves) == 1 else None
+
+    from . import inline as _inl17
     rq = p.method(U + "commands::Request", "try_from", trait="core::convert::TryFrom")
     if chk.require("R5 request framing", "R5|Request::try_from", rq, U, "TryFrom<&[u8]> for Request not found"):
         chk.touched(rq)
+        rq = _inl17.inlined(p, rq)   # a parser split into private phases is read as one body
         hl = p.const_bits(U + "commands::REQUEST_HEADER_LEN")
         chk.ob("R5 request framing", "R5|header-length", hl == 6, U + "commands::REQUEST_HEADER_LEN", "REQUEST_HEADER_LEN = %s (CLA INS P1 P2 + first LC byte; data starts at 7)" % hl)
         Tr = flow.Terms(p, rq)
@@ -282,10 +309,10 @@ def run(chk):
         rags = find_aggs(rq, "Request")
         fv = {}
         dl = None
-        if rags:
-            bb_, i_, rv_ = rags[0]
-            for f_, o_ in zip(rv_["fields"], rv_["ops"]):
-                t_ = N.norm(Tr.operand(o_, bb_, i_))
+        rec_ = ok_record(rq, Tr)
+        if rec_ is not None:
+            for f_ in ("cla", "ins", "p1", "data_len"):
+                t_ = N.norm(("field", rec_, f_))
                 if f_ == "data_len":
                     dl = bytesview.int_decode(t_)
                 elif f_ in ("cla", "ins", "p1"):
@@ -333,15 +360,16 @@ def run(chk):
             continue
         chk.touched(b)
         from . import bytesview
+        b = _inl17.inlined(p, b)
         Tb = flow.Terms(p, b)
         Tb.indexed = True
         IN = ("param", 1)
         got = {}
-        ag_ = find_aggs(b, nm)
-        if ag_:
-            bb_, i_, rv_ = ag_[0]
-            for f_, o_ in zip(rv_["fields"], rv_["ops"]):
-                got[f_] = N.norm(Tb.operand(o_, bb_, i_))
+        rec_ = ok_record(b, Tb)
+        adt_ = p.adts.get(adt)
+        if rec_ is not None and adt_:
+            for f_ in [x["name"] for x in adt_["variants"][0]["fields"]]:
+                got[f_] = N.norm(("field", rec_, f_))
         views = {f_: bytesview.closed_view(t_) for f_, t_ in got.items()}
         ok = views.get("challenge") == (IN, 0, 32)
         if nm == "RegisterRequest":
@@ -354,6 +382,14 @@ def run(chk):
             gets = [x for x in sub(kh)] if kh is not None else []
             okh = False
             for x in gets:
+                # (any spelling of "the first data[64] bytes of data[65..]": get(..n) of the rest, or data[65..65 + n])
+                pv_ = bytesview.prefix_view(x) if isinstance(x, tuple) else None
+                if pv_ is not None and pv_[0] == (IN, 65, None):
+                    e_ = pv_[1]
+                    while isinstance(e_, tuple) and e_ and (e_[0] == "cast" or (is_call(e_, "From::from") or is_call(e_, "Into::into"))):
+                        e_ = e_[-1] if e_[0] == "cast" else e_[2][0]
+                    if bytesview.closed_view(e_) == (IN, 64, 65):
+                        okh = True
                 if is_call(x, "slice::get") and len(x[2]) == 2 and isinstance(x[2][1], tuple) and len(x[2][1]) == 4 and x[2][1][0] == "agg" and str(x[2][1][1]).endswith("RangeTo"):
                     end = dict(x[2][1][3]).get("end")
                     while isinstance(end, tuple) and end and end[0] == "cast":
